@@ -79,4 +79,7 @@ def classify (w : Writer) : Cls :=
       else if baselineWhat.contains w.what then .baseline
       else .unclassified
 
+/-- Same members, whatever the order and multiplicity (source order is not part of the statements). -/
+def sameMembers (a b : List (String × String)) : Bool := a.all (b.contains ·) && b.all (a.contains ·)
+
 end VaxisModel.Spec.WriterClasses
